@@ -1375,7 +1375,8 @@ where
                 while self.index < entries.len() {
                     let entry = &entries[self.index];
                     self.index += 1;
-                    if entry.hash != 0 {
+                    // Skip empty slots and tombstones (removed entries keep their key/value)
+                    if entry.hash != 0 && entry.hash != u64::MAX {
                         return Some((&entry.key, &entry.value));
                     }
                 }
